@@ -964,15 +964,23 @@ def startsDollar : Str → Bool
   | c :: _ => c == '$'
   | [] => false
 
-/-- variable-typed tokens start with `$` (true of everything the lexer emits) -/
-def VarOK (ts : List VT) : Prop := ∀ x ∈ ts, x.2 = .variable → startsDollar x.1 = true
+/-- variable-typed tokens start with `$`, bracket-typed tokens are a single brace (true of everything the lexer
+    emits) -/
+def VarOK (ts : List VT) : Prop :=
+  ∀ x ∈ ts, (x.2 = .variable → startsDollar x.1 = true) ∧ (x.2 = .lbracket → x.1 = ['{']) ∧ (x.2 = .rbracket → x.1 = ['}'])
 
-/-- `ts'` is what is left of `ts` after dropping a prefix without variable tokens -/
-def Consumed (ts ts' : List VT) : Prop := ∃ c, ts = c ++ ts' ∧ ∀ x ∈ c, x.2 ≠ .variable
+/-- neither a variable nor a brace -/
+def plain (x : VT) : Prop := x.2 ≠ .variable ∧ x.2 ≠ .lbracket ∧ x.2 ≠ .rbracket
+
+/-- `ts'` is what is left of `ts` after dropping a prefix of plain tokens -/
+def Consumed (ts ts' : List VT) : Prop := ∃ c, ts = c ++ ts' ∧ ∀ x ∈ c, plain x
+
+theorem plain_of_type (x : VT) (h : x.2 = .dot ∨ x.2 = .string ∨ x.2 = .pointer) : plain x := by
+  rcases h with h | h | h <;> (unfold plain; rw [h]; decide)
 
 theorem Consumed.refl (ts : List VT) : Consumed ts ts := ⟨[], rfl, by simp⟩
 
-theorem Consumed.cons {x : VT} {r ts' : List VT} (hx : x.2 ≠ .variable) (h : Consumed r ts') :
+theorem Consumed.cons {x : VT} {r ts' : List VT} (hx : plain x) (h : Consumed r ts') :
     Consumed (x :: r) ts' := by
   obtain ⟨c, hc, hv⟩ := h
   refine ⟨x :: c, by simp [hc], ?_⟩
@@ -985,10 +993,11 @@ theorem Consumed.cons {x : VT} {r ts' : List VT} (hx : x.2 ≠ .variable) (h : C
 theorem VarOK_tail {x : VT} {r : List VT} (h : VarOK (x :: r)) : VarOK r :=
   fun y hy => h y (by simp [hy])
 
-theorem not_variable_of_word (x : VT) (r : List VT) (h : VarOK (x :: r)) (hs : startsDollar x.1 = false) :
-    x.2 ≠ .variable := by
-  intro hv
-  have := h x (by simp) hv
+theorem plain_of_word (x : VT) (r : List VT) (h : VarOK (x :: r)) (hs : startsDollar x.1 = false)
+    (h1 : x.1 ≠ ['{']) (h2 : x.1 ≠ ['}']) : plain x := by
+  obtain ⟨a, b, c⟩ := h x (by simp)
+  refine ⟨fun hv => ?_, fun hv => h1 (b hv), fun hv => h2 (c hv)⟩
+  have := a hv
   rw [hs] at this
   cases this
 
@@ -1006,36 +1015,39 @@ theorem lexVT_varOK (n : Nat) (e : Str) (hn : e.length ≤ n) : VarOK (lexVT e) 
       have i2 := ih (afterRun isRBrace rest) (Nat.le_trans (afterRun_length_le _ _) hr)
       have i3 := ih rest hr
       rw [lexVT_cons]
-      intro x hx hv
+      intro x hx
       by_cases h1 : (c == '$') = true
       · simp only [h1, if_true, List.mem_cons] at hx
         rcases hx with rfl | hx
-        · simpa [startsDollar] using h1
-        · exact i1 x hx hv
+        · exact ⟨(fun _ => by simpa [startsDollar] using h1), (fun h => nomatch h), (fun h => nomatch h)⟩
+        · exact i1 x hx
       · by_cases h2 : (c == '.') = true
         · simp only [h1, h2, if_true, if_false, Bool.false_eq_true, List.mem_cons] at hx
           rcases hx with rfl | hx
-          · cases hv
-          · exact i3 x hx hv
+          · exact ⟨(fun h => nomatch h), (fun h => nomatch h), (fun h => nomatch h)⟩
+          · exact i3 x hx
         · by_cases h3 : (c == '{') = true
           · simp only [h1, h2, h3, if_true, if_false, Bool.false_eq_true, List.mem_cons] at hx
             rcases hx with rfl | hx
-            · cases hv
-            · exact i3 x hx hv
+            · exact ⟨(fun h => nomatch h), (fun _ => rfl), (fun h => nomatch h)⟩
+            · exact i3 x hx
           · by_cases h4 : (c == '}') = true
             · simp only [h1, h2, h3, h4, if_true, if_false, Bool.false_eq_true, List.mem_cons] at hx
               rcases hx with rfl | hx
-              · cases hv
-              · exact i3 x hx hv
+              · exact ⟨(fun h => nomatch h), (fun h => nomatch h), (fun _ => rfl)⟩
+              · exact i3 x hx
             · by_cases h5 : (c == '#') = true
               · simp only [h1, h2, h3, h4, h5, if_true, if_false, Bool.false_eq_true, List.mem_cons] at hx
                 rcases hx with rfl | hx
-                · cases hv
-                · exact i2 x hx hv
+                · exact ⟨(fun h => nomatch h), (fun h => nomatch h), (fun h => nomatch h)⟩
+                · exact i2 x hx
               · simp only [h1, h2, h3, h4, h5, if_false, Bool.false_eq_true, List.mem_cons] at hx
                 rcases hx with rfl | hx
-                · cases hv
-                · exact i1 x hx hv
+                · exact ⟨(fun h => nomatch h), (fun h => nomatch h), (fun h => nomatch h)⟩
+                · exact i1 x hx
+
+theorem startsWith_regex_brace : startsWith regexPrefix ['{'] = false ∧ startsWith regexPrefix ['}'] = false := by
+  decide
 
 theorem startsWith_regex_dollar (s : Str) (h : startsDollar s = true) : startsWith regexPrefix s = false := by
   cases s with
@@ -1057,10 +1069,13 @@ theorem takeExtractorT_consumed (rx : RxOracle) (ts : List VT) (ex : Option Str)
       rw [← h.2]; exact Consumed.refl _
     · simp only [h1, Bool.false_eq_true, if_false] at h
       by_cases h2 : startsWith regexPrefix x.1 = true
-      · have hx : x.2 ≠ .variable := by
-          intro hvx
-          have := startsWith_regex_dollar x.1 (hv x (by simp) hvx)
-          rw [h2] at this; cases this
+      · have hx : plain x := by
+          obtain ⟨a, b, c⟩ := hv x (by simp)
+          refine ⟨fun hvx => ?_, fun hvx => ?_, fun hvx => ?_⟩
+          · have := startsWith_regex_dollar x.1 (a hvx)
+            rw [h2] at this; cases this
+          · rw [b hvx, startsWith_regex_brace.1] at h2; cases h2
+          · rw [c hvx, startsWith_regex_brace.2] at h2; cases h2
         simp only [h2, Bool.not_true, Bool.false_eq_true, if_false] at h
         cases hrx : rx (List.drop regexPrefix.length x.1) with
         | none => simp [hrx] at h
@@ -1081,7 +1096,7 @@ theorem parseBodyRefT_consumed (emb : Variant) (mk : Option Str → Node) (ts : 
     by_cases h1 : (t.2 == TokType.pointer) = true
     · simp only [h1, if_true, Except.ok.injEq, Prod.mk.injEq] at h
       rw [← h.2]
-      exact Consumed.cons (by simp only [beq_iff_eq] at h1; rw [h1]; decide) (Consumed.refl _)
+      exact Consumed.cons (plain_of_type t (by simp only [beq_iff_eq] at h1; simp [h1])) (Consumed.refl _)
     · simp only [h1, Bool.false_eq_true, if_false] at h
       by_cases h2 : (emb == Variant.repaired && t.2 == TokType.rbracket) = true
       · simp only [h2, if_true, Except.ok.injEq, Prod.mk.injEq] at h
@@ -1105,13 +1120,13 @@ theorem namedTailT_consumed (rx : RxOracle) (mk : Str → Option Str → Node) (
   | cons d r =>
     by_cases hd : (d.2 == TokType.dot) = true
     · simp only [skipDotT, hd, if_true] at h
-      have hdv : d.2 ≠ .variable := by simp only [beq_iff_eq] at hd; rw [hd]; decide
+      have hdv : plain d := plain_of_type d (by simp only [beq_iff_eq] at hd; simp [hd])
       cases r with
       | nil => simp [takeStringT] at h
       | cons p r4 =>
         by_cases hp : (p.2 == TokType.string) = true
         · simp only [takeStringT, hp, if_true] at h
-          have hpv : p.2 ≠ .variable := by simp only [beq_iff_eq] at hp; rw [hp]; decide
+          have hpv : plain p := plain_of_type p (by simp only [beq_iff_eq] at hp; simp [hp])
           cases hte : takeExtractorT rx r4 with
           | error x => simp [hte] at h
           | ok a =>
@@ -1126,6 +1141,17 @@ theorem namedTailT_consumed (rx : RxOracle) (mk : Str → Option Str → Node) (
 theorem word_not_dollar : startsDollar sQuery = false ∧ startsDollar sPath = false ∧ startsDollar sHeader = false ∧
     startsDollar sBody = false := by decide
 
+theorem word_not_brace : ∀ w ∈ [sQuery, sPath, sHeader, sBody], w ≠ ['{'] ∧ w ≠ ['}'] := by decide
+
+theorem plain_loc (loc : VT) (r : List VT) (h : VarOK (loc :: r)) (w : Str) (hw : w ∈ [sQuery, sPath, sHeader, sBody])
+    (hl : loc.1 = w) : plain loc := by
+  have hb := word_not_brace w hw
+  have hd : startsDollar w = false := by
+    obtain ⟨w1, w2, w3, w4⟩ := word_not_dollar
+    simp only [List.mem_cons, List.mem_nil_iff, or_false] at hw
+    rcases hw with rfl | rfl | rfl | rfl <;> assumption
+  exact plain_of_word loc r h (by rw [hl]; exact hd) (by rw [hl]; exact hb.1) (by rw [hl]; exact hb.2)
+
 theorem parseRequestT_consumed (emb : Variant) (rx : RxOracle) (ts : List VT) (n : Node) (ts' : List VT)
     (hv : VarOK ts) (h : parseRequestT emb rx ts = .ok (n, ts')) : Consumed ts ts' := by
   obtain ⟨w1, w2, w3, w4⟩ := word_not_dollar
@@ -1133,26 +1159,25 @@ theorem parseRequestT_consumed (emb : Variant) (rx : RxOracle) (ts : List VT) (n
   | nil => simp [parseRequestT, skipDotT] at h
   | cons d r =>
     by_cases hd : (d.2 == TokType.dot) = true
-    · have hdv : d.2 ≠ .variable := by simp only [beq_iff_eq] at hd; rw [hd]; decide
+    · have hdv : plain d := plain_of_type d (by simp only [beq_iff_eq] at hd; simp [hd])
       cases r with
       | nil => simp [parseRequestT, skipDotT, hd] at h
       | cons loc r2 =>
         have hv2 : VarOK (loc :: r2) := VarOK_tail hv
         simp only [parseRequestT, skipDotT, hd, if_true] at h
         by_cases hl : (loc.1 == sQuery || loc.1 == sPath || loc.1 == sHeader) = true
-        · have hlv : loc.2 ≠ .variable := by
-            apply not_variable_of_word loc r2 hv2
+        · have hlv : plain loc := by
             simp only [Bool.or_eq_true, beq_iff_eq] at hl
-            rcases hl with (hl | hl) | hl <;> rw [hl] <;> assumption
+            rcases hl with (hl | hl) | hl
+            · exact plain_loc loc r2 hv2 sQuery (by simp) hl
+            · exact plain_loc loc r2 hv2 sPath (by simp) hl
+            · exact plain_loc loc r2 hv2 sHeader (by simp) hl
           simp only [hl, if_true] at h
           exact Consumed.cons hdv (Consumed.cons hlv
             (namedTailT_consumed rx (Node.nonBodyRequest loc.1) r2 n ts' (VarOK_tail hv2) h))
         · simp only [hl, Bool.false_eq_true, if_false] at h
           by_cases hb : (loc.1 == sBody) = true
-          · have hlv : loc.2 ≠ .variable := by
-              apply not_variable_of_word loc r2 hv2
-              simp only [beq_iff_eq] at hb
-              rw [hb]; exact w4
+          · have hlv : plain loc := plain_loc loc r2 hv2 sBody (by simp) (by simpa using hb)
             simp only [hb, if_true] at h
             exact Consumed.cons hdv (Consumed.cons hlv (parseBodyRefT_consumed emb _ r2 n ts' h))
           · simp [hb] at h
@@ -1165,26 +1190,20 @@ theorem parseResponseT_consumed (emb : Variant) (rx : RxOracle) (ts : List VT) (
   | nil => simp [parseResponseT, skipDotT] at h
   | cons d r =>
     by_cases hd : (d.2 == TokType.dot) = true
-    · have hdv : d.2 ≠ .variable := by simp only [beq_iff_eq] at hd; rw [hd]; decide
+    · have hdv : plain d := plain_of_type d (by simp only [beq_iff_eq] at hd; simp [hd])
       cases r with
       | nil => simp [parseResponseT, skipDotT, hd] at h
       | cons loc r2 =>
         have hv2 : VarOK (loc :: r2) := VarOK_tail hv
         simp only [parseResponseT, skipDotT, hd, if_true] at h
         by_cases hl : (loc.1 == sHeader) = true
-        · have hlv : loc.2 ≠ .variable := by
-            apply not_variable_of_word loc r2 hv2
-            simp only [beq_iff_eq] at hl
-            rw [hl]; exact w3
+        · have hlv : plain loc := plain_loc loc r2 hv2 sHeader (by simp) (by simpa using hl)
           simp only [hl, if_true] at h
           exact Consumed.cons hdv (Consumed.cons hlv
             (namedTailT_consumed rx (fun p ex => Node.headerResponse p ex) r2 n ts' (VarOK_tail hv2) h))
         · simp only [hl, Bool.false_eq_true, if_false] at h
           by_cases hb : (loc.1 == sBody) = true
-          · have hlv : loc.2 ≠ .variable := by
-              apply not_variable_of_word loc r2 hv2
-              simp only [beq_iff_eq] at hb
-              rw [hb]; exact w4
+          · have hlv : plain loc := plain_loc loc r2 hv2 sBody (by simp) (by simpa using hb)
             simp only [hb, if_true] at h
             exact Consumed.cons hdv (Consumed.cons hlv (parseBodyRefT_consumed emb _ r2 n ts' h))
           · simp [hb] at h
@@ -1240,7 +1259,7 @@ theorem parseFT_variables_known (cfg : PCfg) (rx : RxOracle) (f : Nat) (o : Bool
           · exact hk
           · rw [hc, List.mem_append] at hx
             rcases hx with hx | hx
-            · exact absurd hxv (hcv x hx)
+            · exact absurd hxv (hcv x hx).1
             · exact ih _ _ _ hv' hns' x hx hxv
       all_goals
         simp only [ht] at h
@@ -1268,5 +1287,90 @@ theorem parse_variables_known (cfg : PCfg) (rx : RxOracle) (e : Str) (ns : List 
   have := parseFT_variables_known cfg rx _ false (lexVT e) ns (lexVT_varOK e.length e (Nat.le_refl _)) h
     (vt t) (by simp only [lexVT, List.mem_map]; exact ⟨t, ht, rfl⟩) htv
   exact this
+
+/-! ## unbalanced or nested braces are rejected -/
+
+theorem braceBalanced_plain (o : Bool) (x : VT) (rest : List VT) (h : plain x) :
+    braceBalanced o ((x :: rest).map (·.2)) = braceBalanced o (rest.map (·.2)) := by
+  obtain ⟨h1, h2, h3⟩ := h
+  simp only [List.map_cons]
+  cases hx : x.2 <;> simp_all [braceBalanced]
+
+theorem braceBalanced_consumed (o : Bool) (ts ts' : List VT) (h : Consumed ts ts') :
+    braceBalanced o (ts.map (·.2)) = braceBalanced o (ts'.map (·.2)) := by
+  obtain ⟨c, rfl, hc⟩ := h
+  induction c with
+  | nil => rfl
+  | cons x c ih =>
+    rw [List.cons_append, braceBalanced_plain o x _ (hc x (by simp))]
+    exact ih (fun y hy => hc y (by simp [hy]))
+
+theorem parseFT_balanced (cfg : PCfg) (rx : RxOracle) (f : Nat) (o : Bool) (vts : List VT) (ns : List Node)
+    (hv : VarOK vts) (h : parseFT cfg rx f o vts = .ok ns) : braceBalanced o (vts.map (·.2)) = true := by
+  induction f generalizing o vts ns with
+  | zero => simp [parseFT] at h
+  | succ f ih =>
+    cases vts with
+    | nil =>
+      simp only [parseFT] at h
+      cases o <;> simp_all [braceBalanced]
+    | cons t ts =>
+      have hvt := VarOK_tail hv
+      simp only [parseFT] at h
+      cases ht : t.2
+      case «variable» =>
+        simp only [ht] at h
+        cases hp : parseVariableT cfg.embBody rx t.1 ts with
+        | error e => simp [hp] at h
+        | ok a =>
+          obtain ⟨n, ts'⟩ := a
+          simp only [hp] at h
+          obtain ⟨_, hcons⟩ := parseVariableT_ok cfg.embBody rx t.1 ts n ts' hvt hp
+          obtain ⟨ns', hns'⟩ := consOk_ok h
+          obtain ⟨c, hc, hcv⟩ := hcons
+          have hv' : VarOK ts' := fun y hy => hvt y (by rw [hc]; simp [hy])
+          simp only [List.map_cons, ht, braceBalanced]
+          rw [braceBalanced_consumed o ts ts' ⟨c, hc, hcv⟩]
+          exact ih _ _ _ hv' hns'
+      case lbracket =>
+        simp only [ht] at h
+        simp only [List.map_cons, ht, braceBalanced]
+        cases o
+        · simp only [Bool.false_eq_true, if_false] at h
+          simpa using ih _ _ _ hvt h
+        · simp at h
+      case rbracket =>
+        simp only [ht] at h
+        simp only [List.map_cons, ht, braceBalanced]
+        cases o
+        · simp at h
+        · simp only [if_true] at h
+          simpa using ih _ _ _ hvt h
+      case string =>
+        simp only [ht] at h
+        obtain ⟨ns', hns'⟩ := consOk_ok h
+        simp only [List.map_cons, ht, braceBalanced]
+        exact ih _ _ _ hvt hns'
+      case dot =>
+        simp only [ht] at h
+        obtain ⟨ns', hns'⟩ := consOk_ok h
+        simp only [List.map_cons, ht, braceBalanced]
+        exact ih _ _ _ hvt hns'
+      case pointer =>
+        simp only [ht] at h
+        simp only [List.map_cons, ht, braceBalanced]
+        cases hs : cfg.stray with
+        | asFound => simp only [hs] at h; exact ih _ _ _ hvt h
+        | repaired =>
+          simp only [hs] at h
+          obtain ⟨ns', hns'⟩ := consOk_ok h
+          exact ih _ _ _ hvt hns'
+
+/-- a successfully parsed expression has balanced, un-nested braces -/
+theorem parse_balanced (cfg : PCfg) (rx : RxOracle) (e : Str) (ns : List Node) (h : parse cfg rx e = .ok ns) :
+    braceBalanced false ((tokenize e).map (·.type)) = true := by
+  rw [parse_eq_parseT] at h
+  have := parseFT_balanced cfg rx _ false (lexVT e) ns (lexVT_varOK e.length e (Nat.le_refl _)) h
+  simpa [lexVT, vt, List.map_map, Function.comp_def] using this
 
 end SV.Proofs.C10
